@@ -26,7 +26,7 @@ func main() {
 const header = "From Verif Require Import Base.Prelude Base.Decimal Enc.JsonEnc Misc.Level Api.Exec Harness.C01H."
 
 func run(c *Ctx) {
-	c.Res.Rule = "a case is a whole logging program: global settings, a logger derivation chain (With/UpdateContext with context ops, hooks incl. the library's LevelHook - every harness hook notes the level and message it is handed: they must be the event's level and final message -, byte-neutral Level/Output/Sample, stretches derived while the logger is Disabled or descends from Nop()), one event started through WithLevel / the level's method / Logger.Write / Print (level, field ops with nesting Dict/Array/Object/EmbedObject/Fields/Func/errors, message, finalizer); values drawn from class alphabets (escaping/UTF-8 classes, integer/float/time boundaries; directed: type names with tags, years and zone offsets at the ends of time.Time, neighbouring instants under dot- and comma-fraction layouts, float32 and float64 bit patterns at and next to every threshold of the float text in both widths and signs (C02); another event started on a logger and writer of its own at every kind of place of the program - caller code, callback, marshaler, dict under construction, hook - before / after a Discard(), finalized at once or after the outer event: each inner event is a case of its own, every Write on its writer is accounted for); corpus of fixed defects first; non-trivial = the event was written and has at least 3 members; distinct by Gallina term"
+	c.Res.Rule = "a case is a whole logging program: global settings, a logger derivation chain (With/UpdateContext with context ops, hooks incl. the library's LevelHook - every harness hook notes the level and message it is handed: they must be the event's level and final message -, byte-neutral Level/Output/Sample, stretches derived while the logger is Disabled or descends from Nop(), stretches derived without a writer - Output(nil) ... Output(w), New(nil) roots; an event logged through a writer-less logger has no line and is judged by the hook monitors only), one event started through WithLevel / the level's method / Logger.Write / Print (level, field ops with nesting Dict/Array/Object/EmbedObject/Fields/Func/errors, message, finalizer); values drawn from class alphabets (escaping/UTF-8 classes, integer/float/time boundaries; directed: json.Marshaler / TextMarshaler values - pretty-printed RawMessage, MarshalIndent types, nil, errors - at the top level and inside containers through every call that ends in InterfaceMarshalFunc, and in a quarter of the Interface/Any values of the random programs; type names with tags, years and zone offsets at the ends of time.Time, neighbouring instants under dot- and comma-fraction layouts, float32 and float64 bit patterns at and next to every threshold of the float text in both widths and signs (C02); another event started on a logger and writer of its own at every kind of place of the program - caller code, callback, marshaler, dict under construction, hook - before / after a Discard(), finalized at once or after the outer event: each inner event is a case of its own, every Write on its writer is accounted for; hook lists in which hooks that draw pooled events - logging through another logger, Dict(), Arr(), Fields with object errors - meet discarding hooks, followed by two more events of the program); corpus of fixed defects first; non-trivial = the event was written and has at least 3 members; distinct by Gallina term"
 	c.OpenShards(header, "c01_case * c01_obs", "mismatches c01_run c01_eqb", 400)
 	n := 3000
 	if c.Thorough() {
@@ -41,12 +41,25 @@ func run(c *Ctx) {
 			c.Violate(Violation{Key: "logging-call-panicked", Monitor: "no-panic", Desc: fmt.Sprintf("logging program panicked: %v", o.Panic), Case: cs.Describe()})
 			return o
 		}
-		c.AddCase(term, j)
 		nontrivial := false
+		if cs.EndsWriterless() {
+			// an event of a logger without a writer (New(nil) / Output(nil)): enabled, built, its hooks run, its bytes
+			// go to io.Discard - no line for the model to predict; the monitors below judge the hooks
+			term += " (* through a writer-less logger *)"
+			c.Hist("writerless_event", "true")
+			nontrivial = len(cs.HookMarks()) > 0
+			if o.Written {
+				c.Note("an event logged through a logger derived with Output(nil) reached the case's writer: %q", o.Line)
+			}
+		} else {
+			c.AddCase(term, j)
+		}
 		if o.Writes > 1 {
 			c.Violate(Violation{Key: "more-than-one-write", Monitor: "one-write", Desc: fmt.Sprintf("%d Write calls for one event", o.Writes), Case: cs.Describe()})
 		}
-		if o.Written {
+		if why := excludedFragment[cs]; why != "" && o.Written {
+			c.Hist("excluded_invalid_fragment", why)
+		} else if o.Written {
 			v, err := oracle.CheckEventLine(o.Line)
 			if err != nil {
 				c.Violate(Violation{Key: "event-not-wellformed", Monitor: "rfc8259-validator", Desc: err.Error(), Case: cs.Describe(), Observed: fmt.Sprintf("%q", o.Line)})
@@ -134,7 +147,12 @@ func run(c *Ctx) {
 			// after its Discard() too) another event is started and finished on a logger and writer of its own
 			cs.InsertNested(g, 1+g.R.Intn(2))
 		}
+		varyIfaceValues(cs, g)
+		varyWriter(cs, g)
 		emit(cs)
+	}
+	if c.Prop == "C01" {
+		runC01Marshalers(c, emit) // (after the random programs: its cases are long, they go into the last, partly filled shard)
 	}
 	c.Res.ExtraCoverage["hook_invocations_whose_level_and_message_were_checked"] = hookArgChecks
 }
@@ -185,6 +203,63 @@ func varyDerivation(cs *progs.Case, g *progs.Gen) {
 	}
 }
 
+// varyWriter (drawn last): a stretch of the chain derived without a writer (Output(nil) ... Output(w); the runner
+// attaches the writer again after the last step if the stretch is still open), a New(nil) root; now and then the event
+// is logged through the writer-less end of the chain as it is (no line then: the monitors judge its hooks).
+func varyWriter(cs *progs.Case, g *progs.Gen) {
+	r := g.R
+	if r.Chance(10) && len(cs.Steps) > 0 {
+		i := r.Intn(len(cs.Steps))
+		cs.Steps[i].Out = 1
+		if j := i + 1 + r.Intn(len(cs.Steps)-i); j < len(cs.Steps) {
+			cs.Steps[j].Out = 2
+		}
+		cs.NoWriter = r.Chance(30)
+	}
+	if r.Chance(4) && cs.Root == 0 {
+		cs.Root = 2
+		cs.NoWriter = r.Chance(30)
+	}
+}
+
+// varyIfaceValues (drawn last): a quarter of the values the program gives to Interface / Any / Array.Interface - in the
+// event, in callbacks, marshalers, dicts, arrays, hooks and the context - become values that produce their own JSON or
+// text (progs.MarshalerValues, those with valid results).
+func varyIfaceValues(cs *progs.Case, g *progs.Gen) {
+	var pool []progs.MarshalerValue
+	var walk func(ops []progs.Op)
+	walk = func(ops []progs.Op) {
+		for i := range ops {
+			o := &ops[i]
+			if (o.K == "key" || o.K == "aelem") && o.P != nil && (o.P.M == "Interface" || o.P.M == "Any") && g.R.Chance(25) {
+				if pool == nil {
+					for _, mv := range progs.MarshalerValues() {
+						if !mv.Invalid {
+							pool = append(pool, mv)
+						}
+					}
+				}
+				o.P = &progs.Prim{M: o.P.M, V: pool[g.R.Intn(len(pool))].V}
+			}
+			walk(o.Sub)
+		}
+	}
+	for i := range cs.Steps {
+		for j := range cs.Steps[i].Cops {
+			co := &cs.Steps[i].Cops[j]
+			if co.K == "op" {
+				one := []progs.Op{*co.O}
+				walk(one)
+				co.O = &one[0]
+			}
+			if co.K == "hook" || co.K == "object" || co.K == "embed" {
+				walk(co.Sub)
+			}
+		}
+	}
+	walk(cs.Ops)
+}
+
 // randomLevelHook: each of the eight fields left unset with probability unsetPct %, else a hook that notes its run
 // and adds a field named after its level
 func randomLevelHook(g *progs.Gen, unsetPct int) progs.Cop {
@@ -200,14 +275,23 @@ func randomLevelHook(g *progs.Gen, unsetPct int) progs.Cop {
 	return co
 }
 
-// fieldsPrim: how a value given to Fields() is taken by its type switch (strings and []string have their own
-// cases, everything else the sweep builds goes to the default case = InterfaceMarshalFunc)
+// fieldsPrim: how a value given to Fields() is taken by its type switch (strings, []string, time.Time and json.RawMessage have
+// their own cases, everything else the sweeps build goes to the default case = InterfaceMarshalFunc)
 func fieldsPrim(v interface{}) *progs.Prim {
 	switch x := v.(type) {
 	case string:
 		return &progs.Prim{M: "Str", V: x}
 	case []string:
 		return &progs.Prim{M: "Strs", V: x}
+	case json.RawMessage:
+		// Fields has a case of its own for this type: the bytes are spliced in as RawJSON does it - a caller-supplied
+		// fragment, in scope only when it is valid JSON without control bytes (nil: no Fields call for this value)
+		if !json.Valid(x) || bytes.IndexFunc(x, func(r rune) bool { return r < 0x20 }) >= 0 {
+			return nil
+		}
+		return &progs.Prim{M: "RawJSON", V: x}
+	case time.Time:
+		return &progs.Prim{M: "Time", V: x}
 	}
 	return &progs.Prim{M: "Interface", V: v}
 }
@@ -237,22 +321,7 @@ func runC01(c *Ctx, emit func(cs *progs.Case) progs.Obs) {
 			if !t.lookalike && !c.Thorough() && (k+si)%4 != 0 {
 				continue // quick tier: the plain byte classes visit the shapes in rotation
 			}
-			v := sh.Mk(string(t.b))
-			ip, ap := progs.Prim{M: "Interface", V: v}, progs.Prim{M: "Any", V: v}
-			cs := &progs.Case{S: progs.DefaultSettings(), Level: 1, Msg: []byte("m")}
-			cs.Ops = []progs.Op{
-				{K: "key", Key: []byte("i"), P: &ip},
-				{K: "key", Key: []byte("any"), P: &ap},
-				{K: "array", Key: []byte("arr"), Sub: []progs.Op{{K: "aelem", P: &ip}}},
-				{K: "dict", Key: []byte("d"), Sub: []progs.Op{{K: "key", Key: []byte("i"), P: &ip}}},
-				{K: "fields", KVs: []progs.FieldKV{{Key: []byte("fs"), K: "prim", P: fieldsPrim(v)}}},
-				{K: "fields", Via: true, KVs: []progs.FieldKV{{Key: []byte("fm"), K: "prim", P: fieldsPrim(v)}}},
-			}
-			if _, isStr := v.(string); !isStr {
-				cs.Ops = append(cs.Ops, progs.Op{K: "anerr", Key: []byte("e"), E: &progs.ErrV{K: "iface", V: v}})
-			}
-			co := progs.Op{K: "key", Key: []byte("ci"), P: &ip}
-			cs.Steps = []progs.Step{{Cops: []progs.Cop{{K: "op", O: &co}}}}
+			cs := ifaceEverywhere(sh.Mk(string(t.b)), false)
 			emit(cs)
 			c.Hist("c01_iface_shape", sh.Name)
 		}
@@ -260,6 +329,110 @@ func runC01(c *Ctx, emit func(cs *progs.Case) progs.Obs) {
 	runC01Texts(c, emit)
 	runC01Times(c, emit)
 	runNestedSweep(c, emit)
+	runC03Interleaved(c, emit, 1<<30) // hooks that draw pooled events (Dict, Arr, another logger) before / after a discarding hook, and the events that follow
+}
+
+// ifaceEverywhere: one value through every call that ends in InterfaceMarshalFunc: Interface, Any, Array.Interface,
+// inside Dict, Fields (slice and map, default case of the type switch), as the ErrorMarshalFunc answer for AnErr,
+// Context.Interface.  more: also Err, Errs, an error inside Fields, the ErrorStackMarshaler answer, inside a Func
+// callback, an object marshaler, an array marshaler, an array inside a Dict, a hook, Context.Any / Context.Fields /
+// Context.AnErr / a Dict in the context.
+func ifaceEverywhere(v interface{}, more bool) *progs.Case {
+	ip, ap := progs.Prim{M: "Interface", V: v}, progs.Prim{M: "Any", V: v}
+	cs := &progs.Case{S: progs.DefaultSettings(), Level: 1, Msg: []byte("m")}
+	cs.Ops = []progs.Op{
+		{K: "key", Key: []byte("i"), P: &ip},
+		{K: "key", Key: []byte("any"), P: &ap},
+		{K: "array", Key: []byte("arr"), Sub: []progs.Op{{K: "aelem", P: &ip}}},
+		{K: "dict", Key: []byte("d"), Sub: []progs.Op{{K: "key", Key: []byte("i"), P: &ip}}},
+	}
+	fp := fieldsPrim(v)
+	if fp != nil {
+		cs.Ops = append(cs.Ops,
+			progs.Op{K: "fields", KVs: []progs.FieldKV{{Key: []byte("fs"), K: "prim", P: fp}}},
+			progs.Op{K: "fields", Via: true, KVs: []progs.FieldKV{{Key: []byte("fm"), K: "prim", P: fp}}})
+	}
+	_, isStr := v.(string)
+	if !isStr {
+		cs.Ops = append(cs.Ops, progs.Op{K: "anerr", Key: []byte("e"), E: &progs.ErrV{K: "iface", V: v}})
+	}
+	co := progs.Op{K: "key", Key: []byte("ci"), P: &ip}
+	cs.Steps = []progs.Step{{Cops: []progs.Cop{{K: "op", O: &co}}}}
+	if !more {
+		return cs
+	}
+	after := progs.Prim{M: "Str", V: "x"}
+	ki := func(k string) []progs.Op { return []progs.Op{{K: "key", Key: []byte(k), P: &ip}} }
+	cs.S.StackMarshaler = true
+	cs.Ops = append(cs.Ops,
+		progs.Op{K: "func", Sub: ki("fi")},
+		progs.Op{K: "object", Key: []byte("o"), Sub: ki("oi")},
+		progs.Op{K: "embed", Sub: ki("ei")},
+		progs.Op{K: "array", Key: []byte("am"), Via: true, Sub: []progs.Op{{K: "aelem", P: &ip}, {K: "aelem", P: &ip}}},
+		progs.Op{K: "dict", Key: []byte("da"), Sub: []progs.Op{{K: "array", Key: []byte("a"), Sub: []progs.Op{{K: "aelem", P: &ip}, {K: "aobj", Sub: ki("x")}}}}})
+	st := progs.Step{Cops: []progs.Cop{{K: "op", O: &progs.Op{K: "key", Key: []byte("cany"), P: &ap}},
+		{K: "op", O: &progs.Op{K: "dict", Key: []byte("cd"), Sub: ki("i")}},
+		{K: "op", O: &progs.Op{K: "array", Key: []byte("ca"), Sub: []progs.Op{{K: "aelem", P: &ip}}}}}}
+	if fp != nil {
+		st.Cops = append(st.Cops, progs.Cop{K: "op", O: &progs.Op{K: "fields", KVs: []progs.FieldKV{{Key: []byte("cf"), K: "prim", P: fp}}}})
+	}
+	if !isStr {
+		ev := &progs.ErrV{K: "iface", V: v}
+		withStk := &progs.ErrV{K: "text", S: []byte("boom"), Stk: &progs.ErrV{K: "iface", V: v}}
+		cs.Ops = append(cs.Ops,
+			progs.Op{K: "errs", Key: []byte("es"), Es: []*progs.ErrV{ev, {K: "nil"}, ev}},
+			progs.Op{K: "fields", KVs: []progs.FieldKV{{Key: []byte("fe"), K: "err", E: ev}, {Key: []byte("fes"), K: "errs", Es: []*progs.ErrV{ev, ev}}}},
+			progs.Op{K: "array", Key: []byte("ae"), Sub: []progs.Op{{K: "aerr", E: ev}}},
+			progs.Op{K: "stack"},
+			progs.Op{K: "err", E: withStk})
+		st.Cops = append(st.Cops, progs.Cop{K: "anerr", Key: []byte("ce"), E: ev})
+	}
+	cs.Ops = append(cs.Ops, progs.Op{K: "key", Key: []byte("after"), P: &after})
+	st.Cops = append(st.Cops, progs.Cop{K: "hook", Sub: ki("hi")})
+	cs.Steps = append(cs.Steps, st)
+	return cs
+}
+
+// excludedFragment: cases whose program hands the library a pre-encoded fragment that is itself invalid (the
+// property's exclusion): nothing is demanded of the well-formedness of their line
+var excludedFragment = map[*progs.Case]string{}
+
+// runC01Marshalers: values that produce their own JSON or text (json.Marshaler, encoding.TextMarshaler; the table
+// progs.MarshalerValues: pretty-printed json.RawMessage documents, MarshalIndent types by value and pointer receiver,
+// white space of every kind around every token, nil pointers and nil RawMessages, method errors, invalid results)
+// at the top level and inside a slice / map / struct field / behind a pointer to an interface, through every call
+// that ends in InterfaceMarshalFunc.  Whatever the method returns, the event stays one line without control bytes:
+// the documented default ("encoding/json.Marshal") validates and compacts it.
+func runC01Marshalers(c *Ctx, emit func(cs *progs.Case) progs.Obs) {
+	wraps := []struct {
+		name string
+		mk   func(v interface{}) interface{}
+	}{
+		{"top-level", func(v interface{}) interface{} { return v }},
+		{"slice-elem", func(v interface{}) interface{} { return progs.WSlice{1, v, "z"} }},
+		{"map-value", func(v interface{}) interface{} { return progs.WMap{"a": v, "b\n": progs.WSlice{v}} }},
+		{"struct-field", func(v interface{}) interface{} { return progs.WStruct{N: 1, V: v} }},
+		{"pointer-to-struct-field", func(v interface{}) interface{} { return &progs.WStruct{N: 2, V: v, W: progs.WMap{"k": v}} }},
+	}
+	// the further call sites (Err, Errs, Fields errors, stack answer, callbacks, marshalers, hook, further context calls)
+	// are visited by one value of every kind
+	everySite := map[string]bool{"RawMessage pretty-printed (newlines, tabs)": true, "*RawMessage pretty-printed": true, "MarshalIndent by value receiver": true,
+		"MarshalIndent by pointer receiver (prefix, tabs)": true, "nil pointer of a pointer-receiver marshaler": true, "marshaler returning an error": true,
+		"TextMarshaler with quote, backslash, newline, tab, ill-formed byte": true, "marshaler returning nothing": true}
+	for vi, mv := range progs.MarshalerValues() {
+		for wi, w := range wraps {
+			if wi > 0 && !c.Thorough() && vi%(len(wraps)-1)+1 != wi {
+				continue // quick tier: the containers in rotation
+			}
+			cs := ifaceEverywhere(w.mk(mv.V), wi == 0 && (everySite[mv.Name] || c.Thorough()))
+			if mv.Invalid {
+				excludedFragment[cs] = "a MarshalJSON method of the program returns invalid JSON (" + mv.Name + ")"
+			}
+			emit(cs)
+			c.Hist("c01_marshaler_value", mv.Name)
+			c.Hist("c01_marshaler_position", w.name)
+		}
+	}
 }
 
 // runC01Texts: texts the library takes from somewhere else than a string argument and writes as a JSON string: the
